@@ -9,7 +9,8 @@ PROP = "C06"
 CHECK_MODULE = "Check.C06"
 COQ_IMPORTS = "Model.Timeline"
 SHARD = 300
-RULE = ("(timeline, support for gaps: None/Segment/Timeline, removed region, other timeline): every timeline of <=2 "
+RULE = ("[also: K0 timelines completed with an open-ended segment within an open-ended support (gaps, covers, extrude); copies translated by up to 1.7e9 s] " +
+        "(timeline, support for gaps: None/Segment/Timeline, removed region, other timeline): every timeline of <=2 "
         "(quick) / <=3 (thorough) segments x every region of <=2 segments on a 6-point grid (overhanging the extent on "
         "both sides, empty) in K0, a random third in K4/K1, plus random larger ones; observed: gaps, list(gaps_iter), "
         "extrude in three modes, covers both ways; copies translated 2 h, 28 h, 3 d or -8 h 20 min from the origin; non-trivial = non-empty timeline and non-empty region")
